@@ -1,13 +1,21 @@
 #!/bin/sh
 # usage: tryseed.sh <patch.diff> [prop ...]   — applies the patch to /repo, runs the checks, undoes it.
+# Without a property list all properties are run in one process (resverif -all: one load).
 P="$1"; shift
 PROPS="$*"
-[ -z "$PROPS" ] && PROPS="$(/verif/bin/resverif -list | sort | tr '\n' ' ')"
-mkdir -p /tmp/tryseed-verif; cp /verif/known_findings.txt /tmp/tryseed-verif/; cd /repo || exit 2
+rm -rf /tmp/tryseed-verif; mkdir -p /tmp/tryseed-verif; cp /verif/known_findings.txt /tmp/tryseed-verif/; cd /repo || exit 2
 git diff --quiet || { echo "/repo dirty"; exit 2; }
 git apply "$P" || { echo "patch does not apply"; exit 2; }
-for p in $PROPS; do
-  out=$(/verif/bin/resverif -property $p -tier quick -verif /tmp/tryseed-verif 2>&1)
-  if echo "$out" | grep -q '^VIOLATION'; then echo "== $p: CAUGHT"; echo "$out" | grep -E '^  (violated|unresolved|undecided)' | cut -c1-260; else echo "== $p: silent"; fi
-done
+if [ -z "$PROPS" ]; then
+  /verif/bin/resverif -all -verif /tmp/tryseed-verif 2>&1 | awk '
+    /^== C[0-9]+$/ {cur=$2; buf=""; next}
+    /^== C[0-9]+: CAUGHT/ {print; printf "%s", buf; next}
+    /^== C[0-9]+: silent/ {print; next}
+    /^  (violated|unresolved|undecided)/ {buf = buf substr($0,1,260) "\n"}'
+else
+  for p in $PROPS; do
+    out=$(/verif/bin/resverif -property $p -tier quick -verif /tmp/tryseed-verif 2>&1)
+    if echo "$out" | grep -q '^VIOLATION'; then echo "== $p: CAUGHT"; echo "$out" | grep -E '^  (violated|unresolved|undecided)' | cut -c1-260; else echo "== $p: silent"; fi
+  done
+fi
 git checkout -- . ; git status --short | head
